@@ -84,6 +84,13 @@ func (g *incGraph) spell(dir string, i, j int, style string) string {
 		return "./" + rel
 	case "abs":
 		return abs
+	case "abs-dot":
+		// absolute, not in canonical form: the same file all the same
+		return filepath.Dir(abs) + "/./" + filepath.Base(abs)
+	case "abs-slashes":
+		return filepath.Dir(abs) + "//" + filepath.Base(abs)
+	case "abs-updown":
+		return filepath.Dir(abs) + "/zz/../" + filepath.Base(abs)
 	case "home":
 		return "~/" + target // HOME is the graph directory
 	case "glob":
@@ -307,7 +314,7 @@ func c10Counts(tier string) (g3, g4 int64, depth, special int64) {
 func init() {
 	Register(&Prop{
 		ID:    "C10",
-		Rule:  "include graphs on up to 4 files written to disk (file i starts with i*12 comment lines so a line number names its file): ALL 512 graphs on 3 files and (thorough) ALL 65536 graphs on 4 files x 3 directive orders (6000 sampled in quick), self-loops, k-cycles and diamonds included; plus dangling targets, path spellings (relative, ./, absolute, ~/, glob matching exactly one file), a glob directive matching every sibling, sub-directories, depth limits 1..5 on chains and an oversized file. Fresh loader per case. Oracle: a document-order DFS with an ancestor stack computes the reachable set, the back edges (with and without re-traversal of loaded files: either flagged set is accepted, every flagged directive must be a true back edge), the missing targets; Files/FileOrder/errors and their directive lines are compared; server level: every load-error diagnostic under an open document's URI lies on one of that document's include lines. Non-trivial = graph with >=2 reachable files; distinct by graph/spelling hash.",
+		Rule:  "include graphs on up to 4 files written to disk (file i starts with i*12 comment lines so a line number names its file): ALL 512 graphs on 3 files and (thorough) ALL 65536 graphs on 4 files x 3 directive orders (6000 sampled in quick), self-loops, k-cycles and diamonds included; plus dangling targets, path spellings (relative, ./, absolute, absolute with redundant /./, // or /x/../ segments, ~/, glob matching exactly one file), a glob directive matching every sibling, sub-directories, depth limits 1..5 on chains and an oversized file. Fresh loader per case. Oracle: a document-order DFS with an ancestor stack computes the reachable set, the back edges (with and without re-traversal of loaded files: either flagged set is accepted, every flagged directive must be a true back edge), the missing targets; Files/FileOrder/errors and their directive lines are compared; server level: every load-error diagnostic under an open document's URI lies on one of that document's include lines. Non-trivial = graph with >=2 reachable files; distinct by graph/spelling hash.",
 		Notes: []string{"depth: a file at include depth k (root 0) must load if k < limit and must be reported if k > limit; k = limit is accepted either way", "depth and size limits are exercised on chains / single oversized files only, where the depth of a file is unambiguous"},
 		Cases: func(tier string) int64 {
 			a, b, c, d := c10Counts(tier)
@@ -382,7 +389,7 @@ func c10Make(c *Ctx, idx int64) c10Case {
 		}
 		g.setOrders(r, r.Bool())
 		cs.g = g
-		cs.styles = []string{"rel", "dot", "abs", "home", "glob"}
+		cs.styles = []string{"rel", "dot", "abs", "home", "glob", "abs-dot", "abs-slashes", "abs-updown"}
 	}
 	return cs
 }
